@@ -58,6 +58,9 @@ type Case struct {
 	// exceeds the content actually present (declared-value independence).
 	Family []vh.B `json:"family,omitempty"`
 	Origin string `json:"origin,omitempty"` // how the input was made (histogram only)
+	// Plain: hand the input over through a reader that implements nothing but Read (like a file,
+	// pipe or socket: no Len, no ReadByte, no WriteTo), optionally in small chunks.
+	Plain int `json:"plain,omitempty"` // 0: bytes.Reader; n>0: plain reader returning at most n bytes per Read
 	// Sigs: an in-memory signatures section handed to the bundle-signature verifier (directly
 	// and after Bundle.WriteTo + bundle.Read), with attacker-chosen authority indices.
 	Sigs *SigsCase `json:"sigs,omitempty"`
@@ -125,16 +128,43 @@ var discard = log.New(io.Discard, "", 0)
 
 // run executes the target once. ok reports whether the parser accepted the input.
 var currentSigs *SigsCase
+var currentPlain int
+
+type plainReader struct {
+	b     []byte
+	chunk int
+}
+
+func (p *plainReader) Read(dst []byte) (int, error) {
+	if len(p.b) == 0 {
+		return 0, io.EOF
+	}
+	n := len(dst)
+	if n > p.chunk {
+		n = p.chunk
+	}
+	n = copy(dst[:n], p.b)
+	p.b = p.b[n:]
+	return n, nil
+}
+
+// src wraps the input the way the case asks for.
+func src(in []byte) io.Reader {
+	if currentPlain > 0 {
+		return &plainReader{b: in, chunk: currentPlain}
+	}
+	return bytes.NewReader(in)
+}
 
 func run(target string, in, aux []byte, str, calls string) (ok bool) {
 	switch target {
 	case "signature.verify-struct":
 		return runSigs(currentSigs)
 	case "bundle.Read":
-		_, err := bundle.Read(bytes.NewReader(in))
+		_, err := bundle.Read(src(in))
 		return err == nil
 	case "bundle.Read+verify":
-		b, err := bundle.Read(bytes.NewReader(in))
+		b, err := bundle.Read(src(in))
 		if err != nil || b.Signatures == nil {
 			return false
 		}
@@ -159,20 +189,20 @@ func run(target string, in, aux []byte, str, calls string) (ok bool) {
 		_, err = signature.NewVerifier(sigs, time.Unix(1_700_000_000, 0), bversion.VersionB2)
 		return err == nil
 	case "signedexchange.ReadExchange":
-		_, err := signedexchange.ReadExchange(bytes.NewReader(in))
+		_, err := signedexchange.ReadExchange(src(in))
 		return err == nil
 	case "signedexchange.ReadExchangePrologue":
-		_, err := signedexchange.ReadExchangePrologue(bytes.NewReader(in))
+		_, err := signedexchange.ReadExchangePrologue(src(in))
 		return err == nil
 	case "signedexchange.Verify":
-		e, err := signedexchange.ReadExchange(bytes.NewReader(in))
+		e, err := signedexchange.ReadExchange(src(in))
 		if err != nil {
 			return false
 		}
 		_, ok := e.Verify(time.Unix(1_700_000_000, 0), func(string) ([]byte, error) { return aux, nil }, discard)
 		return ok
 	case "certurl.ReadCertChain":
-		_, err := certurl.ReadCertChain(bytes.NewReader(in))
+		_, err := certurl.ReadCertChain(src(in))
 		return err == nil
 	case "structuredheader.ParseParameterisedList":
 		_, err := structuredheader.ParseParameterisedList(str)
@@ -185,14 +215,14 @@ func run(target string, in, aux []byte, str, calls string) (ok bool) {
 		if target == "mice.Decode02" {
 			enc = mice.Draft02Encoding
 		}
-		d, err := enc.NewDecoder(bytes.NewReader(in), str, 16384)
+		d, err := enc.NewDecoder(src(in), str, 16384)
 		if err != nil {
 			return false
 		}
 		_, err = io.ReadAll(d)
 		return err == nil
 	case "cbor.Decoder":
-		d := cbor.NewDecoder(bytes.NewReader(in))
+		d := cbor.NewDecoder(src(in))
 		for _, c := range calls {
 			var err error
 			switch c {
@@ -352,6 +382,10 @@ func checkCase(c Case, r *vh.R, sub string) {
 		r.Class("origin:" + c.Origin)
 	}
 	currentSigs = c.Sigs
+	currentPlain = c.Plain
+	if c.Plain > 0 {
+		r.Class("plain-reader")
+	}
 	inputs := append([]vh.B{c.Input}, c.Family...)
 	allocs := make([]uint64, len(inputs))
 	size := len(c.Input) + len(c.Aux) + len(c.Str)
@@ -900,7 +934,13 @@ func parseLayout(b []byte) (*layout, error) {
 }
 
 func TestPropParsers(t *testing.T) {
-	prop.Rapid(t, genCase)
+	prop.Rapid(t, func(t *rapid.T) Case {
+		c := genCase(t)
+		if rapid.IntRange(0, 2).Draw(t, "plainreader") == 0 {
+			c.Plain = rapid.SampledFrom([]int{1, 7, 512, 1 << 20}).Draw(t, "plainchunk")
+		}
+		return c
+	})
 }
 
 // ---------------------------------------------------------------------------------------
